@@ -3,21 +3,27 @@ import PnaVerif.Lemmas.Solid
 # C07 (solid blocks) — the entry iterator over the inside of a solid block
 
 `solidEntries` (`Model/Solid.lean`) is `SolidEntry::entries(..)` once the decoder stack is open: `EntryIterator`
-over the decrypted, decompressed inner stream, after the `fix:` that makes it stop once it has reported a stream
-error.  For **every** inner stream (any bytes, any terminal condition of the decoder stack):
+over the decrypted, decompressed inner stream, after the two `fix:` commits (the iterator stops once it has reported
+a stream error; a stream that ends inside an entry is an error instead of a silent end).  For **every** inner stream
+(any bytes, any terminal condition of the decoder stack):
 
 * `solid_no_panic`          no item is a panic; in particular the model's fuel always suffices;
 * `solid_bounded`           at most `len / 12 + 1` items are yielded before `None`: iteration is finite and bounded
                             by the input (each entry consumes at least its 12-byte FEND chunk);
 * `solid_stream_error_once` a stream error is reported at most once and nothing follows it (`solidTrace` is the
-                            same iteration with stream errors tagged, `solid_trace_items`).
+                            same iteration with stream errors tagged, `solid_trace_items`, `solid_trace_true`);
+* `solid_next_consumes`     what one successful `next()` consumed;
+* `solid_garbage_not_silent` a non-empty inner stream (e.g. the noise a wrong password decrypts to) never iterates
+                            to "nothing, no error".
 
 For the streams the writer produces (`encodeChunks (es.flatMap serN)`, property C01 for the inside of a solid block):
 
 * `solid_roundtrip`, `solid_roundtrip_error`, `solid_roundtrip_any`   exactly the entries written come back (data
-                            re-cut at u32::MAX only), followed by the decoder stack's terminal error if it has one;
-* `solid_truncated_prefix`, `solid_truncated_exact`   a truncated inner stream silently yields exactly the entries
-                            that are complete before the cut — a prefix, never a wrong or an extra item.
+                            re-cut at u32::MAX only), followed by the decoder stack's terminal error if it has one
+                            (`UnexpectedEof` included);
+* `solid_truncated_detected`, `solid_truncated_prefix`   a truncated inner stream yields exactly the entries that
+                            are complete before the cut and then `UnexpectedEof` — unless the cut falls exactly
+                            between two entries, which nothing inside the stream can reveal.
 
 Hypotheses of the round trip.  The statement originally proposed carried
 `hnf : ∀ e ∈ es, ∀ c ∈ e.extra, c.ty ≠ FEND` (the closing FEND of `serN e` must be the first FEND, or `next()` would
@@ -36,7 +42,7 @@ open Pna
 theorem solid_no_panic (s : InStream) : ∀ o ∈ solidEntries s, ∀ p, o ≠ .panic p :=
   solidIter_no_panic _ s (Nat.lt_succ_self _)
 
-/-- 2. Termination / resource bound: the iterator yields at most `len / 12 + 1` items before `None`. -/
+/-- 1'. Termination / resource bound: the iterator yields at most `len / 12 + 1` items before `None`. -/
 theorem solid_bounded (s : InStream) : (solidEntries s).length ≤ s.bytes.length / 12 + 1 :=
   solidIter_length _ s (Nat.lt_succ_self _)
 
@@ -45,21 +51,20 @@ theorem solid_trace_items (s : InStream) :
     (solidTrace (s.bytes.length + 1) s).map Prod.snd = solidEntries s :=
   solidTrace_snd _ s
 
-/-- 3. Every item that is not the last is not a stream error: a stream error is reported at most once, and the
+/-- 2. Every item that is not the last is not a stream error: a stream error is reported at most once, and the
     iterator returns `None` right after it. -/
 theorem solid_stream_error_once (s : InStream) :
     ∀ i, i + 1 < (solidTrace (s.bytes.length + 1) s).length →
       ((solidTrace (s.bytes.length + 1) s)[i]?.map Prod.fst) = some false :=
   solidTrace_stream_error_last _ s
 
-/-- the tag is faithful: an item tagged `true` is an `Err` other than `UnexpectedEof` -/
+/-- the tag is faithful: an item tagged `true` is an error item -/
 theorem solid_trace_true (s : InStream) :
-    ∀ x ∈ solidTrace (s.bytes.length + 1) s, x.1 = true → ∃ e, e ≠ Err.eof ∧ x.2 = .error e :=
+    ∀ x ∈ solidTrace (s.bytes.length + 1) s, x.1 = true → ∃ e, x.2 = .error e :=
   solidTrace_true _ s
 
-/-- Each `next()` that yields an item other than a stream error consumed at least 12 bytes, did not touch the
-    terminal condition, and gathered a non-empty run of chunks ending at the first FEND whose encoding is exactly
-    the consumed bytes. -/
+/-- 3. Each `next()` that gathers an entry consumed at least 12 bytes, did not touch the terminal condition, and
+    gathered a non-empty run of chunks ending at the first FEND whose encoding is exactly the consumed bytes. -/
 theorem solid_next_consumes (s s' : InStream) (cs : List Chunk)
     (h : collectEntry (s.bytes.length + 1) s [] = .ok (cs, s')) :
     s'.bytes.length + 12 ≤ s.bytes.length ∧ s'.term = s.term ∧
@@ -69,54 +74,85 @@ theorem solid_next_consumes (s s' : InStream) (cs : List Chunk)
   rw [List.nil_append] at hcs
   exact ⟨h1, h2, body, last, hcs, hl, hb, by rw [hcs]; exact he⟩
 
+/-- 6. **Garbage is not silent** (the wrong-password situation): a non-empty inner stream never iterates to
+    "nothing, no error" — the first `next()` yields an entry, a parse error or a stream error. -/
+theorem solid_garbage_not_silent (s : InStream) (h : s.bytes ≠ []) : solidEntries s ≠ [] :=
+  solidIter_ne_nil _ s h
+
 -- ---------------------------------------------------------------- what the writer produces
 
 /-- `WF` already says that no `extra` chunk is a FEND (the hypothesis `hnf` of the proposed statement). -/
 theorem wf_excludes_fend (e : NormalEntry) (h : e.WF) : ∀ c ∈ e.extra, c.ty ≠ ChunkType.FEND :=
   WF_extra_no_FEND e h
 
-/-- 4 (general form). Round trip under any terminal condition `t` of the decoder stack: the entries written, then
-    `streamEnd t` (nothing for a clean end or `UnexpectedEof`, the error once otherwise). -/
+/-- 4 (combined form). Round trip under any terminal condition `t` of the decoder stack: the entries written, then
+    `streamEnd t` (nothing for a clean end, the error once otherwise). -/
 theorem solid_roundtrip_any (es : List NormalEntry) (hwf : ∀ e ∈ es, e.WF)
     (hfit : ∀ e ∈ es, ChunksFit (serN e)) (t : Option Err) :
     solidEntries ⟨encodeChunks (es.flatMap serN), t⟩ = es.map (fun e => .ok e.recut) ++ streamEnd t :=
   solidIter_encode es hwf hfit t _ (Nat.lt_succ_self _)
 
-/-- 4. **Round trip** (C01 inside a solid block): clean end of stream, or a decoder that ends in `UnexpectedEof`. -/
+/-- 4. **Round trip** (C01 inside a solid block), clean end of stream. -/
 theorem solid_roundtrip (es : List NormalEntry) (hwf : ∀ e ∈ es, e.WF)
-    (hfit : ∀ e ∈ es, ChunksFit (serN e)) (t : Option Err) (ht : t = none ∨ t = some .eof) :
-    solidEntries ⟨encodeChunks (es.flatMap serN), t⟩ = es.map (fun e => .ok e.recut) := by
-  rw [solid_roundtrip_any es hwf hfit t]
-  rcases ht with rfl | rfl
-  · rw [streamEnd_none, List.append_nil]
-  · rw [streamEnd_eof, List.append_nil]
+    (hfit : ∀ e ∈ es, ChunksFit (serN e)) :
+    solidEntries ⟨encodeChunks (es.flatMap serN), none⟩ = es.map (fun e => .ok e.recut) := by
+  rw [solid_roundtrip_any es hwf hfit none, streamEnd_none, List.append_nil]
 
-/-- 4'. Round trip when the decoder stack ends in an error other than `UnexpectedEof` (e.g. a bad padding or a
-    corrupt compressed trailer after the last entry): all entries, then that error exactly once. -/
+/-- 4'. Round trip when the decoder stack ends in an error — any error, `UnexpectedEof` included (a bad padding, a
+    corrupt or cut compressed trailer after the last entry): all entries, then that error exactly once. -/
 theorem solid_roundtrip_error (es : List NormalEntry) (hwf : ∀ e ∈ es, e.WF)
-    (hfit : ∀ e ∈ es, ChunksFit (serN e)) (e : Err) (he : e ≠ .eof) :
+    (hfit : ∀ e ∈ es, ChunksFit (serN e)) (e : Err) :
     solidEntries ⟨encodeChunks (es.flatMap serN), some e⟩ = es.map (fun e => .ok e.recut) ++ [.error e] := by
-  rw [solid_roundtrip_any es hwf hfit (some e), streamEnd_err e he]
+  rw [solid_roundtrip_any es hwf hfit (some e), streamEnd_some]
 
-/-- 5 (exact form). Cutting the inner stream after `k` bytes yields exactly the first `n` entries, where `n` is the
-    number of entries complete before the cut; no error item is produced. -/
-theorem solid_truncated_exact (es : List NormalEntry) (hwf : ∀ e ∈ es, e.WF)
-    (hfit : ∀ e ∈ es, ChunksFit (serN e)) (k : Nat) :
+/-- 5. **Truncation is detected unless the cut falls exactly between two entries.**  Cutting the inner stream after
+    `k` bytes yields exactly the first `n` entries, where `n` is the number of entries complete before the cut, and
+    then `UnexpectedEof` once if the cut is inside entry `n + 1`. -/
+theorem solid_truncated_detected (es : List NormalEntry) (hwf : ∀ e ∈ es, e.WF)
+    (hfit : ∀ e ∈ es, ChunksFit (serN e)) (k : Nat) (hk : k < (encodeChunks (es.flatMap serN)).length) :
     ∃ n, n ≤ es.length ∧
       (encodeChunks ((es.take n).flatMap serN)).length ≤ k ∧
       (n < es.length → k < (encodeChunks ((es.take (n + 1)).flatMap serN)).length) ∧
-      solidEntries ⟨(encodeChunks (es.flatMap serN)).take k, none⟩ = (es.take n).map (fun e => .ok e.recut) :=
-  solidIter_take es hwf hfit none rfl k _ (Nat.lt_succ_self _)
+      solidEntries ⟨(encodeChunks (es.flatMap serN)).take k, none⟩
+        = (es.take n).map (fun e => .ok e.recut)
+          ++ (if k = (encodeChunks ((es.take n).flatMap serN)).length then [] else [.error .eof]) :=
+  solidIter_take es hwf hfit none k _ (Nat.le_of_lt hk) (Nat.lt_succ_self _)
 
-/-- 5. **Truncation inside the inner stream is silent but prefix-closed.** -/
+/-- 5 (any terminal condition, cut at the very end allowed): at a boundary the stream behaves like a stream that
+    ends there (`streamEnd t`); inside an entry `read_exact` reports the terminal error, `UnexpectedEof` for a
+    clean end. -/
+theorem solid_truncated_any (es : List NormalEntry) (hwf : ∀ e ∈ es, e.WF)
+    (hfit : ∀ e ∈ es, ChunksFit (serN e)) (t : Option Err) (k : Nat)
+    (hk : k ≤ (encodeChunks (es.flatMap serN)).length) :
+    ∃ n, n ≤ es.length ∧
+      (encodeChunks ((es.take n).flatMap serN)).length ≤ k ∧
+      (n < es.length → k < (encodeChunks ((es.take (n + 1)).flatMap serN)).length) ∧
+      solidEntries ⟨(encodeChunks (es.flatMap serN)).take k, t⟩
+        = (es.take n).map (fun e => .ok e.recut)
+          ++ (if k = (encodeChunks ((es.take n).flatMap serN)).length then streamEnd t
+              else [.error (t.getD .eof)]) :=
+  solidIter_take es hwf hfit t k _ hk (Nat.lt_succ_self _)
+
+/-- 5'. Whatever the cut (`k` unrestricted), the entries successfully yielded are a prefix of the entries written,
+    and the only other item there can be is one final `UnexpectedEof`: never a wrong entry, never an extra one. -/
 theorem solid_truncated_prefix (es : List NormalEntry) (hwf : ∀ e ∈ es, e.WF)
     (hfit : ∀ e ∈ es, ChunksFit (serN e)) (k : Nat) :
     ∃ n, n ≤ es.length ∧
-      solidEntries ⟨(encodeChunks (es.flatMap serN)).take k, none⟩ = (es.take n).map (fun e => .ok e.recut) := by
-  obtain ⟨n, hn, _, _, h⟩ := solid_truncated_exact es hwf hfit k
-  exact ⟨n, hn, h⟩
+      (solidEntries ⟨(encodeChunks (es.flatMap serN)).take k, none⟩ = (es.take n).map (fun e => .ok e.recut) ∨
+       solidEntries ⟨(encodeChunks (es.flatMap serN)).take k, none⟩
+         = (es.take n).map (fun e => .ok e.recut) ++ [.error .eof]) := by
+  by_cases hk : k < (encodeChunks (es.flatMap serN)).length
+  · obtain ⟨n, hn, _, _, h⟩ := solid_truncated_detected es hwf hfit k hk
+    refine ⟨n, hn, ?_⟩
+    rw [h]
+    split
+    · left; rw [List.append_nil]
+    · right; rfl
+  · refine ⟨es.length, Nat.le_refl _, Or.inl ?_⟩
+    rw [List.take_of_length_le (by omega), List.take_length]
+    exact solid_roundtrip es hwf hfit
 
--- ---------------------------------------------------------------- 6. non-vacuity
+-- ---------------------------------------------------------------- 7. non-vacuity
 
 /-- a file entry with an unknown (private) chunk, two data slices, size, mtime and one xattr -/
 def exA : NormalEntry :=
@@ -137,17 +173,27 @@ theorem ex_fit : ∀ e ∈ [exA, exB], ChunksFit (serN e) := by
   decide +kernel
 
 example : solidEntries ⟨encodeChunks ([exA, exB].flatMap serN), none⟩ = [.ok exA.recut, .ok exB.recut] :=
-  solid_roundtrip [exA, exB] ex_wf ex_fit none (Or.inl rfl)
+  solid_roundtrip [exA, exB] ex_wf ex_fit
 
--- the same by evaluation: 160 bytes in (129 of them the first entry), the two entries out; with a failing decoder, the error once after them
+-- the same by evaluation: 160 bytes in (129 of them the first entry), the two entries out; with a failing decoder,
+-- the error once after them — `UnexpectedEof` included
 example : (encodeChunks ([exA, exB].flatMap serN)).length = 160 := by decide +kernel
+example : (encodeChunks (serN exA)).length = 129 := by decide +kernel
 example : solidEntries ⟨encodeChunks ([exA, exB].flatMap serN), none⟩ = [.ok exA, .ok exB] := by decide +kernel
 example : solidEntries ⟨encodeChunks ([exA, exB].flatMap serN), some .invalidData⟩
     = [.ok exA, .ok exB, .error .invalidData] := by decide +kernel
--- truncation: one byte short of the end loses the second entry and reports nothing
-example : solidEntries ⟨(encodeChunks ([exA, exB].flatMap serN)).take 159, none⟩ = [.ok exA] := by decide +kernel
+example : solidEntries ⟨encodeChunks ([exA, exB].flatMap serN), some .eof⟩
+    = [.ok exA, .ok exB, .error .eof] := by decide +kernel
+-- truncation: a cut inside an entry is reported after the complete entries; a cut between entries cannot be seen
+example : solidEntries ⟨(encodeChunks ([exA, exB].flatMap serN)).take 159, none⟩ = [.ok exA, .error .eof] := by
+  decide +kernel
+example : solidEntries ⟨(encodeChunks ([exA, exB].flatMap serN)).take 130, none⟩ = [.ok exA, .error .eof] := by
+  decide +kernel
 example : solidEntries ⟨(encodeChunks ([exA, exB].flatMap serN)).take 129, none⟩ = [.ok exA] := by decide +kernel
-example : solidEntries ⟨(encodeChunks ([exA, exB].flatMap serN)).take 128, none⟩ = [] := by decide +kernel
+example : solidEntries ⟨(encodeChunks ([exA, exB].flatMap serN)).take 128, none⟩ = [.error .eof] := by
+  decide +kernel
+example : solidEntries ⟨(encodeChunks ([exA, exB].flatMap serN)).take 1, none⟩ = [.error .eof] := by decide +kernel
+example : solidEntries ⟨(encodeChunks ([exA, exB].flatMap serN)).take 0, none⟩ = [] := by decide +kernel
 
 -- a stream error (an FDAT chunk with a wrong CRC) is the last item, and is tagged as such
 example : solidEntries ⟨[0,0,0,0, 70,68,65,84, 0,0,0,0], none⟩ = [.error .invalidData] := by decide +kernel
@@ -159,6 +205,14 @@ example : solidEntries ⟨encodeChunks (serN exB) ++ [0,0,0,0, 70,68,65,84, 0,0,
 -- an entry that gathers but does not parse (no FHED) is an item, not a stream error: iteration continues
 example : solidTrace 200 ⟨(Chunk.mk ChunkType.FEND []).encode ++ encodeChunks (serN exB), none⟩
     = [(false, .error .invalidData), (false, .ok exB)] := by decide +kernel
+-- noise (what a wrong password decrypts to): a length field pointing past the end is `UnexpectedEof`, reported
+example : solidEntries ⟨[200, 13, 77, 2, 9, 9, 9, 9, 1, 2, 3, 4, 5, 6, 7, 8, 9], none⟩ = [.error .eof] := by
+  decide +kernel
+example : solidTrace 18 ⟨[200, 13, 77, 2, 9, 9, 9, 9, 1, 2, 3, 4, 5, 6, 7, 8, 9], none⟩ = [(true, .error .eof)] := by
+  decide +kernel
+-- the empty stream: nothing on a clean end, the decoder's error otherwise
+example : solidEntries ⟨[], none⟩ = [] := by decide +kernel
+example : solidEntries ⟨[], some .invalidData⟩ = [.error .invalidData] := by decide +kernel
 
 end Pna.C07S
 
@@ -168,11 +222,13 @@ end Pna.C07S
 #print axioms Pna.C07S.solid_stream_error_once
 #print axioms Pna.C07S.solid_trace_true
 #print axioms Pna.C07S.solid_next_consumes
+#print axioms Pna.C07S.solid_garbage_not_silent
 #print axioms Pna.C07S.wf_excludes_fend
 #print axioms Pna.C07S.solid_roundtrip_any
 #print axioms Pna.C07S.solid_roundtrip
 #print axioms Pna.C07S.solid_roundtrip_error
-#print axioms Pna.C07S.solid_truncated_exact
+#print axioms Pna.C07S.solid_truncated_detected
+#print axioms Pna.C07S.solid_truncated_any
 #print axioms Pna.C07S.solid_truncated_prefix
 #print axioms Pna.C07S.ex_wf
 #print axioms Pna.C07S.ex_fit
